@@ -34,6 +34,7 @@ pub proof fn lemma_schur_src(t: TriangularType, mm: int, a: int, b: int, c: int,
         mmul(mm, bs) == mstack(mzero(r, n - r), s) && mmul(fs, bs) == mid(n - r) && nr(bs) == n && nc(bs) == n - r
     }),
 {
+    bx_dims_all();
     let i = mid(n - r); let nx = mneg(x); let bs = mstack(nx, i);
     bx_add_dims(x, x); bx_dims(0, 0, 0, 0, n - r, 0, 0); bx_dims(nx, i, 0, 0, 0, 0, 0);
     bx_stack_mul(mconcat(a, b), mconcat(c, d), bs);
@@ -54,6 +55,7 @@ pub proof fn lemma_schur_tgt(t: TriangularType, mm: int, a: int, b: int, c: int,
         &&& mmul(ft, bt) == mid(m - r) && nr(ft) == m - r && nc(ft) == m
     }),
 {
+    bx_dims_all();
     let i = mid(m - r); let ny = mneg(y); let ft = mconcat(ny, i);
     bx_add_dims(y, y); bx_dims(0, 0, 0, 0, m - r, 0, 0); bx_dims(ny, i, 0, 0, 0, 0, 0);
     lemma_schur_s(t, mm, a, b, c, d, x, s, r, m, n); bx_tri_inv(t, a);
